@@ -27,6 +27,8 @@ def classify(kf, rec):
 
         def body(l):
             return re.sub(r"^[>\s\-*+]*(\d+[.)])?\s*", "", l)
+        if any(body(l).startswith("...") for l in c.get("doc", "").split("\n")):
+            return True       # the source had a run at a line start: which runs match depends on where the lines break
         if len(a) != len(b):
             return any(body(l).startswith("...") for l in a)
         lead = [body(l).startswith("...") for l in a]
@@ -34,6 +36,11 @@ def classify(kf, rec):
         def near(i):
             return lead[i] or (i + 1 < len(a) and lead[i + 1]) or (i > 0 and lead[i - 1])
         return all(x == y or near(i) for i, (x, y) in enumerate(zip(a, b)))
+    if cl == "tag-split-by-inline-markup":
+        t = c.get("text") or c.get("doc") or ""
+        # inline markup inside the tag, or a bare URL running into the tag's opening delimiter: either way the parser cuts the tag
+        return any("..." in m.group(0) and (re.search(r"[*_`]", m.group(0)) or re.search(r"(?:https?://|www\.)\S*$", t[:m.start()]))
+                   for m in re.finditer(r"\{%.*?%\}|\{\{.*?\}\}|\{#.*?#\}|<!--.*?-->", t, flags=re.S))
     if cl == "ellipsis-inside-template-tag":
         t = c.get("text") or c.get("doc") or ""
         return bool(re.search(r"\{%[^%]*\.\.\.[^%]*%\}|\{\{[^}]*\.\.\.[^}]*\}\}|\{#[^#]*\.\.\.[^#]*#\}|<!--(?:(?!-->).)*\.\.\.(?:(?!-->).)*-->", t, flags=re.S))
@@ -43,6 +50,8 @@ def classify(kf, rec):
 def undo(s: str) -> str:
     """inverse mapping used to compare modulo the rewrite: ellipsis char -> ..., spaces around it erased"""
     s = s.replace("…", "...")
+    # whether two tags separated by one space end up adjacent depends on where the line breaks (finding D-13, C06), not on the option
+    s = re.sub(r"(%\}|\}\}|#\}|-->)\s+(\{%|\{\{|\{#|<!--)", r"\1\2", s)
     return re.sub(r"\s*\.\.\.\s*", "...", s)
 
 
@@ -124,7 +133,7 @@ def run(chk: Check) -> None:
     nd = 300 if tier == "quick" else 5000
     nbd = 0
     for i in range(nd):
-        doc = gen_doc(rng)
+        doc = '{% x a="*b*" c="wait... more" %} text\n' if i == 0 else gen_doc(rng)     # i == 0: reproducer of finding D-62
         o = dict(width=rng.choice([0, 30, 88]), semantic=rng.random() < 0.5, cleanups=rng.random() < 0.3, smartquotes=rng.random() < 0.3)
         off = reformat_text(doc, ellipses=False, **o)
         on = reformat_text(doc, ellipses=True, **o)
@@ -133,11 +142,23 @@ def run(chk: Check) -> None:
             chk.nontrivial(doc)
         why = None
         try:
-            ta = mdast.coalesce_text(mdast.strip_blank(mdast.doc_tree(off)))
-            tb = mdast.coalesce_text(mdast.strip_blank(mdast.doc_tree(on)))
+            def no_ws_nodes(t):
+                # a whitespace-only text node between two tags / comments depends on where the wrapper breaks the line, not on the option
+                if "c" in t:
+                    t = dict(t, c=[no_ws_nodes(k) for k in t["c"] if not (k["t"] == "RawText" and not k.get("s", "").strip())])
+                return t
+            ta = no_ws_nodes(mdast.coalesce_text(mdast.strip_blank(mdast.doc_tree(off))))
+            tb = no_ws_nodes(mdast.coalesce_text(mdast.strip_blank(mdast.doc_tree(on))))
             why = mdast.shape_diff(ta, tb, lambda a, b: None if undo(a) == undo(b) else f"prose differs beyond ellipses: {a!r} vs {b!r}")
         except Exception as e:
             why = f"re-parse failed: {e}"
+        if why is None:
+            tag_rx = re.compile(r"\{%.*?%\}|\{\{.*?\}\}|\{#.*?#\}|<!--.*?-->", flags=re.S)
+            ws = lambda t: re.sub(r"\s+", " ", t)  # noqa: E731
+            ta_, tb_ = [ws(m.group(0)) for m in tag_rx.finditer(off)], [ws(m.group(0)) for m in tag_rx.finditer(on)]
+            if ta_ != tb_:
+                bad = next((x for x, y in zip(ta_, tb_) if x != y), None)
+                why = f"a template tag differs between ellipses off and on: {bad!r}"
         on2 = None
         if why is None:
             on2 = reformat_text(on, ellipses=True, **o)
